@@ -53,6 +53,8 @@ func main() {
 			checkC19(c)
 		case "C20":
 			checkC20(c)
+		case "C08":
+			checkC08(c)
 		case "C09":
 			wireCheck(c, "C09", false, nil)
 		case "C10":
